@@ -152,6 +152,43 @@ def replay_mixed(sts):
     return bad
 
 
+def illcond_probe(seed):
+    """Systems at the ill-conditioned end of the stated regime (condition number 100, 300, 1000 of a positive 3 x 3
+    capture matrix; captures ~35, bounds [0.1, 1.5]) and targets generated from interior intensities.  No oracle is
+    needed for the clause asserted here: an in-gamut target is reproduced with zero error (to the solver's accuracy)."""
+    import_dreye()
+    from dreye.api.optimize.lsq_linear import lsq_linear
+    bad, n = [], 0
+    lb, ub = np.full(3, 0.1), np.full(3, 1.5)
+    for cond in (100.0, 300.0, 1000.0):
+        for sd in range(4):
+            rng = np.random.default_rng(seed * 1000 + sd)
+            R = rng.uniform(-1, 1, (3, 3))
+            lo, hi = 1e-4, 10.0
+            for _ in range(60):
+                d = np.sqrt(lo * hi)
+                A = 12.0 + d * R
+                if np.linalg.cond(A) > cond:
+                    lo = d
+                else:
+                    hi = d
+            X = rng.uniform(0.3, 1.2, (8, 3))
+            B = X @ A.T
+            for acc, kw, tol in (("default", {}, 2e-2), ("high", dict(solver="CLARABEL"), 2e-3)):
+                w = dict(op="lsq_linear", acc=acc, cond=cond, illcond=True, below=False, zero=True)
+                n += 1
+                try:
+                    Xf, Bp = lsq_linear(A, B.copy(), lb=lb, ub=ub, return_pred=True, **kw)
+                    err = float(np.max(np.abs(np.asarray(Bp) - B)))
+                    if err > tol:
+                        bad.append(("C04.zero-iff-ingamut", w, 0.0, err, dict(seed=seed * 1000 + sd, cond=cond)))
+                    if np.any(np.asarray(Xf) < lb - 1e-2 * (ub - lb)) or np.any(np.asarray(Xf) > ub + 1e-2 * (ub - lb)):
+                        bad.append(("C04.bounds", w, [lb.tolist(), ub.tolist()], np.asarray(Xf).tolist(), dict(seed=seed * 1000 + sd, cond=cond)))
+                except Exception as ex:
+                    bad.append(("C04.no-error", dict(exc=type(ex).__name__, **w), None, repr(ex)[:200], dict(seed=seed * 1000 + sd, cond=cond)))
+    return bad, n
+
+
 def _chunk(args):
     sts, high = args
     out = [replay_state(st, high) for st in sts]
@@ -186,6 +223,11 @@ def run(ctx):
             ctx.count("targets:" + ("in-gamut" if f["zero"] else "below-baseline" if f["below"] else "outside"))
             if any(a != 0 for a in f["asg"]):
                 ctx.nontrivial.add((repr(st["sys"]["A"]), repr(st["sys"]["lb"]), repr(st["sys"]["ub"]), st["sys"]["kk"], repr(st["sys"]["Kn"]), repr(st["sys"]["bl"]), tuple(st["w"]), tuple(f["b"])))
+    ibad, inum = illcond_probe(ctx.seed)
+    for clause, where, exp, obs, case in ibad:
+        ctx.violation(clause, where, dict(probe=case), exp, obs)
+    ctx.count("ill-conditioned in-gamut probe calls", inum)
+    ctx.evaluations += inum
     # code -> spec: recorded calls on random lattice systems outside the curated families, recomputed by TLC
     from .. import sysdriver
     sysdriver.run_trace(ctx, "fit", "C04", 16, 40 if thorough else 12)
